@@ -4,7 +4,7 @@
     mutex (lock obligations coq/obligations/ObC17.v, regenerated from the source), so every
     schedule of concurrent goroutines is an operation list.  Well-formedness is what
     database/sql guarantees: a connection is used between its open and its single close. *)
-From updog Require Import Prelude DriverSM DriverProofs.
+From updog Require Import Prelude DriverSM DriverProofs Dsn DsnProofs.
 
 Theorem C17_no_panic_no_hang valid ops :
   wf_ops valid [] [] ops = true →
@@ -38,6 +38,15 @@ Theorem C17_pinned_refuted :
   ∧ (d_run (λ _, true) d_init pin_ops).2 = [ROpened; RRows 7; RClosed; ROpened; RRows 7].
 Proof. exact DriverProofs.C17_pinned_refuted. Qed.
 
+(** The key under which a [file:] data source name shares its connection (file path and the
+    option part computed by openFile) determines the index options the name asks for: a
+    handle never gets an index configured differently from its name (Dsn.v models Open's
+    parsing of the name). *)
+Theorem C17_key_determines_options n1 n2 p1 c1 k1 p2 c2 k2 :
+  parse_dsn n1 = DsnFile p1 c1 k1 → parse_dsn n2 = DsnFile p2 c2 k2 → (p1, k1) = (p2, k2) → c1 = c2.
+Proof. exact (parse_dsn_key_determines_cfg n1 n2 p1 c1 k1 p2 c2 k2). Qed.
+
+Print Assumptions C17_key_determines_options.
 Print Assumptions C17_no_panic_no_hang.
 Print Assumptions C17_queries_correct.
 Print Assumptions C17_release.
